@@ -17,6 +17,16 @@ import (
 
 type dim struct{ d, b int }
 
+// insIndices are the index values the circuit decomposes: (start + i) mod r.
+func insIndices(c *cases.Ins) []*big.Int {
+	out := make([]*big.Int, len(c.Ids))
+	for i := range out {
+		v := new(big.Int).Add(c.Start, big.NewInt(int64(i)))
+		out[i] = v.Mod(v, ref.R)
+	}
+	return out
+}
+
 func auditReport(run *evid.Run, key string, sys *rmon.Sys) bool {
 	a := sys.Audit
 	run.Add("systems_audited", 1)
@@ -53,7 +63,7 @@ func runC01(o *cli.Opts, run *evid.Run) {
 		}
 		dims = append(dims, dim{8, 8}, dim{20, 4})
 	}
-	perClass := o.Pick(10, 40)
+	perClass := o.Pick(10, 24)
 	auditOK := true
 	cli.ForEach(len(dims), 6, func(di int) {
 		dm := dims[di]
@@ -90,7 +100,7 @@ func runC01(o *cli.Opts, run *evid.Run) {
 			if !ok {
 				return
 			}
-			judge(run, sys, key, "gadget/"+j.class, c.Valid, insGadgetAssign(c), strat, c.Sig(), c.Describe())
+			judge(run, sys, key, "gadget/"+j.class, c.Valid, insGadgetAssign(c), strat, insIndices(c), c.Sig(), c.Describe())
 		})
 	})
 	run.Stage("gadget")
@@ -137,7 +147,7 @@ func runC01(o *cli.Opts, run *evid.Run) {
 				return
 			}
 			valid := c.Valid && c.Start.Cmp(two32) < 0
-			judge(run, sys, key, "full/"+j.class, valid, insFullAssign(c, insHash(c)), strat, c.Sig(), c.Describe())
+			judge(run, sys, key, "full/"+j.class, valid, insFullAssign(c, insHash(c)), strat, insIndices(c), c.Sig(), c.Describe())
 		})
 	})
 	run.Stage("full")
